@@ -299,7 +299,8 @@ theorem distribute_ok {e : Env} {s s3 : St} (h : distribute e s = .ok s3) :
     (s3.burned - s.burned) + (s3.bank.get .collector .debt - s.bank.get .collector .debt)
       + (s3.bank.get .keeper .debt - s.bank.get .keeper .debt)
       + (s3.bank.get .initiator .debt - s.bank.get .initiator .debt)
-      + (s3.bank.get .pool .debt - s.bank.get .pool .debt) + (s3.booked - s.booked) = e.target ∧
+      + (s3.bank.get .pool .debt - s.bank.get .pool .debt) + (s3.bank.get .lendres .debt - s.bank.get .lendres .debt)
+      + (s3.booked - s.booked) = e.target ∧
     (∀ a, s3.bank.get a .coll = s.bank.get a .coll) ∧
     (∀ n, s3.bank.get (.bidder n) .debt = s.bank.get (.bidder n) .debt) ∧
     s3.bank.get .owner .debt = s.bank.get .owner .debt := by
@@ -337,7 +338,7 @@ theorem distribute_ok {e : Env} {s s3 : St} (h : distribute e s = .ok s3) :
               refine ⟨rfl, rfl, rfl, rfl, rfl, rfl, by simp, ?_, ?_, ?_, ?_, ?_, ?_⟩
               · simp only; rw [d3, d2, d1]; simp
               · simp only; rw [d3, d2, d1]; simp [posPart_of_nonneg hcut, posPart_of_nonneg (by omega : 0 ≤ e.fee - cutOf e e.isKeeper)] ; omega
-              · simp only; rw [d3, d2, d1, d3, d2, d1, d3, d2, d1, d3, d2, d1]
+              · simp only; rw [d3, d2, d1, d3, d2, d1, d3, d2, d1, d3, d2, d1, d3, d2, d1]
                 simp [posPart_of_nonneg hcut, posPart_of_nonneg (by omega : 0 ≤ e.fee - cutOf e e.isKeeper)]
               · intro a; simp only; rw [d3, d2, d1]; simp
               · intro n; simp only; rw [d3, d2, d1]; simp
@@ -359,23 +360,77 @@ theorem distribute_ok {e : Env} {s s3 : St} (h : distribute e s = .ok s3) :
             refine ⟨rfl, rfl, rfl, rfl, rfl, rfl, by simp; omega, ?_, ?_, ?_, ?_, ?_, ?_⟩
             · simp only; rw [d]; simp
             · simp only; rw [d]; simp ; omega
-            · simp only; rw [d, d, d, d]; simp ; omega
+            · simp only; rw [d, d, d, d, d]; simp ; omega
             · intro a; simp only; rw [d]; simp
             · intro n; simp only; rw [d]; simp
             · simp only; rw [d]; simp
     · -- lend
       split at h
       · cases h
-      · rename_i b hb
-        cases h
-        obtain ⟨_, _, d⟩ := send_ok hb (by decide)
-        refine ⟨rfl, rfl, rfl, rfl, rfl, rfl, by simp, ?_, ?_, ?_, ?_, ?_, ?_⟩
-        · simp only; rw [d]; simp
-        · simp only; rw [d]; simp
-        · simp only; rw [d, d, d, d]; simp
-        · intro a; simp only; rw [d]; simp
-        · intro n; simp only; rw [d]; simp
-        · simp only; rw [d]; simp
+      · rename_i b1 hb1
+        split at h
+        · cases h
+        · rename_i b2 hb2
+          split at h
+          · cases h
+          · rename_i b3 hb3
+            split at h
+            · cases h
+            · rename_i b4 hb4
+              cases h
+              obtain ⟨_, _, d1⟩ := send_ok hb1 (by decide)
+              obtain ⟨_, _, d2⟩ := send_ok hb2 (by decide)
+              have d3 := sendPos_ok hb3 (by decide)
+              have d4 := sendPos_ok hb4 (by decide)
+              refine ⟨rfl, rfl, rfl, rfl, rfl, rfl, by simp, ?_, ?_, ?_, ?_, ?_, ?_⟩
+              · simp only; rw [d4, d3, d2, d1]; simp
+              · simp only; rw [d4, d3, d2, d1]; simp
+              · simp only; rw [d4, d3, d2, d1, d4, d3, d2, d1, d4, d3, d2, d1, d4, d3, d2, d1, d4, d3, d2, d1]; simp; omega
+              · intro a; simp only; rw [d4, d3, d2, d1]; simp
+              · intro n; simp only; rw [d4, d3, d2, d1]; simp
+              · simp only; rw [d4, d3, d2, d1]; simp
+/-- the lend close in detail (`MsgCloseDutchAuctionForBorrow`): the module account hands over the whole target; the debt pool keeps
+`target − penalty − reserve interest`, the lend reserve receives `penalty + reserve interest`, the bridge asset of a cross-pool
+borrow goes back from the debt pool to the collateral's pool; nothing else moves -/
+theorem distribute_lend {e : Env} {s s3 : St} (hk : e.kind = .lend) (h : distribute e s = .ok s3) :
+    s3.bank.get .auction .debt = s.bank.get .auction .debt - e.target ∧
+    s3.bank.get .pool .debt = s.bank.get .pool .debt + e.target - e.lendPen - posPart e.lendInt ∧
+    s3.bank.get .lendres .debt = s.bank.get .lendres .debt + e.lendPen + posPart e.lendInt ∧
+    s3.bank.get .pool .transit = s.bank.get .pool .transit - posPart e.bridged ∧
+    s3.bank.get .poolIn .transit = s.bank.get .poolIn .transit + posPart e.bridged ∧
+    s3.bank.get .auction .transit = s.bank.get .auction .transit ∧
+    (∀ a, s3.bank.get a .coll = s.bank.get a .coll) ∧ s3.burned = s.burned ∧ s3.netFees = s.netFees ∧ s3.extFees = s.extFees := by
+  unfold distribute at h
+  split at h
+  · cases h
+  · rw [hk] at h
+    simp only at h
+    split at h
+    · cases h
+    · rename_i b1 hb1
+      split at h
+      · cases h
+      · rename_i b2 hb2
+        split at h
+        · cases h
+        · rename_i b3 hb3
+          split at h
+          · cases h
+          · rename_i b4 hb4
+            cases h
+            obtain ⟨_, _, d1⟩ := send_ok hb1 (by decide)
+            obtain ⟨_, _, d2⟩ := send_ok hb2 (by decide)
+            have d3 := sendPos_ok hb3 (by decide)
+            have d4 := sendPos_ok hb4 (by decide)
+            refine ⟨?_, ?_, ?_, ?_, ?_, ?_, ?_, rfl, rfl, rfl⟩
+            · simp only; rw [d4, d3, d2, d1]; simp
+            · simp only; rw [d4, d3, d2, d1]; simp
+            · simp only; rw [d4, d3, d2, d1]; simp
+            · simp only; rw [d4, d3, d2, d1]; simp
+            · simp only; rw [d4, d3, d2, d1]; simp
+            · simp only; rw [d4, d3, d2, d1]; simp
+            · intro a; simp only; rw [d4, d3, d2, d1]; simp
+
 /-! ### ledger and custody invariant -/
 
 structure Inv (e : Env) (s : St) : Prop where
@@ -734,7 +789,8 @@ theorem apply_moves {e : Env} {s s' : St} {a : Auc} {who : Nat} {p : Plan} {auto
         (s'.burned - s.burned) + (s'.bank.get .collector .debt - s.bank.get .collector .debt)
           + (s'.bank.get .keeper .debt - s.bank.get .keeper .debt)
           + (s'.bank.get .initiator .debt - s.bank.get .initiator .debt)
-          + (s'.bank.get .pool .debt - s.bank.get .pool .debt) + (s'.booked - s.booked) = e.target) ∧
+          + (s'.bank.get .pool .debt - s.bank.get .pool .debt) + (s'.bank.get .lendres .debt - s.bank.get .lendres .debt)
+          + (s'.booked - s.booked) = e.target) ∧
     (p.close = false → s'.auc = some { a with coll := a.coll - p.total, debt := a.debt - p.pay, bonus := a.bonus - p.share }) := by
   unfold apply at h
   split at h
@@ -808,7 +864,7 @@ theorem apply_moves {e : Env} {s s' : St} {a : Auc} {who : Nat} {p : Plan} {auto
                   refine ⟨rfl, ?_, ?_⟩
                   · simp only; rw [d4, q11, d2, p1, w5 _ _ (by simp) (by simp)]; simp
                   · simp only
-                    rw [d4, d4, d4, d4]
+                    rw [d4, d4, d4, d4, d4]
                     simp only [reduceCtorEq, if_false, and_false]
                     have e1 : b2.get .collector .debt = s.bank.get .collector .debt := by
                       rw [d2, p1, w5 _ _ (by simp) (by simp)]; simp
@@ -818,7 +874,9 @@ theorem apply_moves {e : Env} {s s' : St} {a : Auc} {who : Nat} {p : Plan} {auto
                       rw [d2, p1, w5 _ _ (by simp) (by simp)]; simp
                     have e4 : b2.get .pool .debt = s.bank.get .pool .debt := by
                       rw [d2, p1, w5 _ _ (by simp) (by simp)]; simp
-                    rw [e1, e2, e3, e4, w3, w4] at q10
+                    have e5 : b2.get .lendres .debt = s.bank.get .lendres .debt := by
+                      rw [d2, p1, w5 _ _ (by simp) (by simp)]; simp
+                    rw [e1, e2, e3, e4, e5, w3, w4] at q10
                     omega
                 · intro hf; rw [hcl] at hf; cases hf
           · simp only [hcl, if_false, Bool.false_eq_true] at h
